@@ -58,7 +58,7 @@ From WaxProofs Require Import DepthAltFacts ExhaustAltFacts.
    bound means the expansion ends with a tree wildcard followed by separators and zero-or-more wildcards only; with the rule
    checker's guarantees over expansions (C06: no adjacent boundaries, no adjacent zero-or-more wildcards) that tail is `*`, `*/*`,
    ..., which absorbs any further component.  What remains excluded is the known class trailing_boundary (may_end_sep); with
-   repetitions the verdict was unsound twice (46d7bc7, 6c17bd8: repaired) and optional repetitions remain a known class *)
+   repetitions the verdict was unsound three times (46d7bc7, 6c17bd8, 83c38c1: repaired) and optional repetitions remain a known class *)
 Theorem C09_built_globs_without_repetitions_always_sound : forall orbit e t r p z,
   build e = BuildOk t r -> rep_free t = true -> is_exhaustive t = Ok Always -> may_end_sep t = false -> nosep z = true ->
   Lang orbit t p -> Lang orbit t (p ++ SEP :: z).
